@@ -213,7 +213,7 @@ def handle (l : Line) : IO Unit := do
         let m1 := r1.1.read r2.2
         let m2 := r2.1.read r2.2
         s!"htest={bits n m1.test}/{bits n m2.test}"
-    IO.println s!"obs {id} new=ok tnew={tnew} perr={perrS} pv={showHexList pv} n={n} test={bits n mt.test} oob={oob} all={b01 mt.all} any={b01 mt.any} apply={showIdx ap.1} flag={b01 ap.2} fapply={showIdx ap2.1.values} fflag={b01 ap2.2} omiss={omiss} lmiss={lmiss} glue=ok {tfields} {hfield}"
+    IO.println s!"obs {id} new=ok tnew={tnew} perr={perrS} pv={showHexList pv} n={n} test={bits n mt.test} oob={oob} all={b01 mt.all} any={b01 mt.any} apply={showIdx ap.1} flag={b01 ap.2} fapply={showIdx ap2.1.values} fflag={b01 ap2.2} back={showIdx (mt.applyBacking res.values)} omiss={omiss} lmiss={lmiss} glue=ok {tfields} {hfield}"
     -- S layer: the specification
     -- the meaning of the expression TEXT: the tree of the parser model when it accepts the text
     -- (so that a parser that builds another tree is judged wrong), else the tree that was sent
